@@ -39,6 +39,14 @@ func cmpRank(v ssa.Value) int {
 	case *ssa.Parameter, *ssa.UnOp, *ssa.Field, *ssa.FieldAddr, *ssa.Index, *ssa.IndexAddr, *ssa.Extract, *ssa.Lookup, *ssa.FreeVar, *ssa.Global:
 		return 2
 	case *ssa.BinOp:
+		// the stepped counter of a range loop (`i+1` of the loop-carried i, tested against the length) is loop-carried too
+		if x.Op == token.ADD || x.Op == token.SUB {
+			_, xPhi := x.X.(*ssa.Phi)
+			_, yK := x.Y.(*ssa.Const)
+			if xPhi && yK {
+				return 0
+			}
+		}
 		return 4
 	}
 	return 5
